@@ -18,13 +18,26 @@ impl AtomicCounter {
     /// Fetches and returns the current value of the counter, and adds `len` to it.
     #[inline(always)]
     pub fn fetch_and_add(&self, len: usize) -> usize {
-        self.current.fetch_add(len, Ordering::AcqRel)
+        let previous = self.current.fetch_add(len, Ordering::AcqRel);
+        self.pin_if_overflown(previous, len);
+        previous
     }
 
     /// Fetches and returns the current value of the counter, and adds `1` to it.
     #[inline(always)]
     pub fn fetch_and_increment(&self) -> usize {
-        self.current.fetch_add(1, Ordering::AcqRel)
+        let previous = self.current.fetch_add(1, Ordering::AcqRel);
+        self.pin_if_overflown(previous, 1);
+        previous
+    }
+
+    /// The counter is a position which is only ever compared with lengths:
+    /// it is pinned at the largest value rather than wrapping around to positions that are already yielded.
+    #[inline(always)]
+    fn pin_if_overflown(&self, previous: usize, added: usize) {
+        if previous.checked_add(added).is_none() {
+            self.current.store(usize::MAX, Ordering::SeqCst);
+        }
     }
 
     /// Fetches and returns the current value of the counter.
